@@ -1003,6 +1003,11 @@ def stack_files(fs, stackdim, coordkeys=None):
     Currently, there is no sanity check...
 
     """
+    if hasattr(fs[0], 'stack'):
+        # PseudoNetCDF files know how to stack themselves (keeping masks,
+        # data types and the unlimited flag of the stacked dimension)
+        return fs[0].stack(list(fs[1:]), stackdim)
+
     f = PseudoNetCDFFile()
     tmpf = fs[0]
     if coordkeys is None:
